@@ -380,7 +380,7 @@ class Indentation(afmformats.AFMForceDistance):
               curhash == "none" or
               self._rating[0] != curhash or
               self._rating[1] != regressor or
-              self._rating[2] != training_set or
+              not _same_training_set(self._rating[2], training_set) or
               self._rating[3] != names or
               self._rating[4] != lda):
             # Perform rating
@@ -389,9 +389,20 @@ class Indentation(afmformats.AFMForceDistance):
                               names=names,
                               lda=lda)
             rt = rater.rate(datasets=self)[0]
-            self._rating = (curhash, regressor, training_set,
+            self._rating = (curhash, regressor,
+                            copy.deepcopy(training_set),
                             copy.copy(names), lda, rt)
         else:
             # Use cached rating
             rt = self._rating[-1]
         return rt
+
+
+def _same_training_set(ts1, ts2):
+    """Compare two training sets (label, path, or tuple of arrays)"""
+    if isinstance(ts1, tuple) or isinstance(ts2, tuple):
+        return (isinstance(ts1, tuple) and isinstance(ts2, tuple)
+                and len(ts1) == len(ts2)
+                and all(np.array_equal(a1, a2)
+                        for a1, a2 in zip(ts1, ts2)))
+    return ts1 == ts2
